@@ -36,10 +36,12 @@ def run(ctx):
     if tier == "quick":
         plan = [(h, p, d, big) for h in histories(1) for p in (0, 1) for d in (None,)] + \
                [(h, 0, None, bigmin) for h in ("", "d", "g", "a", "r")] + \
+               [("k", p, None, big) for p in (0, 1)] + \
                [(h, p, d, small) for h in histories(2) for p in (0, 1) for d in (None, "4")]
     else:
         plan = [(h, p, d, big) for h in histories(2) for p in (0, 1) for d in (None, "3")] + \
                [(h, p, None, bigmin) for h in histories(1) for p in (0, 1)] + \
+               [(h, p, None, big) for h in ("k", "kd", "dk", "ka", "kn", "nk") for p in (0, 1)] + [("k", 0, None, bigmin)] + \
                [(h, p, d, small) for h in histories(3) for p in (0, 1) for d in (None, "0", "1", "2", "3", "4", "5", "6")]
     jobs = []
     for h, p, d, (levels, stride) in plan:
@@ -153,7 +155,7 @@ def run(ctx):
         "digests_compared": n_digests,
         "explanation": "states = (history, heap traffic, debug level, probe set) combinations, each replayed in fresh processes; history "
                        "alphabet: a compile+keep (avx), b compile+keep (sse), f free oldest kept code, r compile+run+free, x failed compile "
-                       "(no rule), z fatal compile, n compile for neon, h application heap traffic, g every sys opcode compiled for sse/avx/mmx under the smallest flag set of the target, d the same under the default flags; a second probe mode compiles the probes under the smallest flag sets. After each history every probe program "
+                       "(no rule), z fatal compile, n compile for neon, h application heap traffic, g every sys opcode compiled for sse/avx/mmx under the smallest flag set of the target, d the same under the default flags, k (selected histories only) every scalar-operand opcode compiled for all eight targets with operand 0 / width-1 / width; a second probe mode compiles the probes under the smallest flag sets. After each history every probe program "
                        "(all single-opcode programs incl. float + corpus; corpus + pressure programs for the deeper histories) is compiled "
                        "for sse, avx, mmx, c, c64x-c, neon, altivec, mips; code and listing digests must equal the empty-history baseline. "
                        "In-process: recompile after reset reproduces code and listing; three runs of the same code give identical output.",
